@@ -3,7 +3,7 @@ import datetime
 import hashlib
 import random
 
-from pyvc.unit import unit
+from pyvc.unit import bare, unit
 
 APKF = "androguard/core/apk/__init__.py"
 META = {
@@ -75,7 +75,7 @@ def guard_structure(U):
         return          # an empty attribute set is "no signed attributes" (covered by has_attrs = False)
     si = _signer_info(_Attrs(attrs))
     signed_data = {"content": {"encap_content_info": {"content_type": _Native("data")}}}
-    a = object.__new__(m.APK)
+    a = bare(m.APK)
     calls = []
     a.find_certificate = lambda certs, s: ("CERT" if cert_found else None)
 
@@ -121,7 +121,7 @@ def first_verified_signer(U):
     m = U.mod(APKF)
     outcomes = [U.choice("s0", ["cert0", "none", "error"]), U.choice("s1", ["cert1", "none"])]
     minsdk = U.choice("minsdk", [None, "21", "24"])
-    a = object.__new__(m.APK)
+    a = bare(m.APK)
     a.get_file = lambda n: b"FILE:" + n.encode()
     a.get_min_sdk_version = lambda: minsdk
     seen = []
@@ -255,7 +255,7 @@ def signed_apks(U):
         b = bytearray(sf)
         b[g["pos"] % len(b)] ^= 0x20
         sf_in_apk = bytes(b)
-    a = object.__new__(m.APK)
+    a = bare(m.APK)
     # the base name of the block has a dot of its own; a decoy X.SF (the untouched signed content) sits next to the block's X.V1.SF
     files = {"META-INF/X.V1.RSA": p7, "META-INF/X.V1.SF": sf_in_apk, "META-INF/X.SF": sf}
     a.get_file = lambda n: files[n]
